@@ -43,7 +43,17 @@ def histories(tier, seed):
     # two databases (the implementation loads them on concurrent threads: not compared with the model line by line)
     two = ["RESET", "SESS 1", "C 1 auth adm pw", "C 1 create-db t tok newer", "C 1 create-db u tk2 arbiter", "C 1 use-db t tok", "C 1 set a 1", "C 1 use-db u tk2", "C 1 set z 9",
            "C 1 snapshot false t|u", "SNAP", "RESTART", "SESS 1", "C 1 auth adm pw", "C 1 debug list-dbs", "C 1 use-db u tk2", "C 1 get-safe z"]
-    return H, [two]
+    multi = [two]
+    # databases whose names are related (one a prefix of the other, with a next character that sorts before, at and after `/`): the object
+    # keys of one start with the object keys' prefix of the other; few keys in one and many in the other, both ways round
+    many = [("a", "1"), ("bb", "two words"), ("c", "3"), ("dddd", "4"), ("e", "5"), ("ff", "6"), ("g", "7"), ("hh", "8"), ("i", "9"), ("jj", "10")]
+    for other in ("t-old", "t.v2", "t2", "t_old", "tt"):
+        for (kt, ko) in ((many[:1], many), (many, many[:1]), (many, many), ([], many)):
+            c = ["RESET", "SESS 1", "C 1 auth adm pw", "C 1 create-db t tok newer", f"C 1 create-db {other} tk2 newer", "C 1 use-db t tok"]
+            c += [f"C 1 set {k} {v}" for k, v in kt] + [f"C 1 use-db {other} tk2"] + [f"C 1 set {k} o{v}" for k, v in ko]
+            c += [f"C 1 snapshot false t|{other}", "SNAP", "RESTART", "SESS 1", "C 1 auth adm pw", "C 1 debug list-dbs", "C 1 use-db t tok", "C 1 keys", f"C 1 use-db {other} tk2", "C 1 keys"]
+            multi.append(c)
+    return H, multi
 
 def run_impl(case, strategy, parts, faults, tag):
     """the history against a fresh stub; returns (output lines, stub log, final objects)"""
@@ -85,7 +95,13 @@ def datasets_after_restarts(out):
     return res
 
 def live(dump):
-    return {k: (v["v"], v["ver"]) for k, v in entries(dump).items() if v["st"] != "D" and k != "$connections"}
+    """the live data of every user database, keys as `<db>/<key>`"""
+    out = {}
+    for d in dump:
+        m = re.match(r"D k (\S+) (\S+) ver=(-?\d+) st=(\w) va=(\d+) ka=(\d+) op=(\S+) v=(.*)", d)
+        if m and m.group(1) != "$admin" and m.group(4) != "D" and m.group(2) != "$connections":
+            out[(m.group(2) if m.group(1) == "t" else f"{m.group(1)}/{m.group(2)}")] = (m.group(8), int(m.group(3)))
+    return out
 
 def oracle(case, out_s3, out_disk, stub_log, strategy, faults):
     """the same history under the disk strategy is the reference"""
@@ -235,7 +251,7 @@ def main(tier, seed):
                evaluations=len(results), distinct_nontrivial=len(hashes),
                rule=("operation / snapshot (incremental and space-reclaiming) / restart histories over one database (sets incl. multi-word and multi-byte values, removes, increments, versioned writes): all sequences of length L from an alphabet of 11 steps that contain a snapshot, plus seeded random longer ones, "
                      "each run through the REAL storage code against an in-process S3 stub for strategy s3 and s3_patition with 1, 3 and 10 partitions, and for a subset with faults (first PUT fails once, a PUT fails always, first GET fails once); the same history under the disk strategy is the reference: "
-                     "after the first restart the live keys, values, versions and the database's id and strategy must agree. For strategy s3 the Lean model (s3Snapshot / s3LoadDb) runs the same history and every output line and the bytes of every stored object are compared. distinct by (strategy, partitions, trace hash)"),
+                     "after the first restart the live keys, values, versions of EVERY user database and database t's id and strategy must agree; two-database histories include names related by prefix (t with t-old, t.v2, t2, t_old, tt; few / many keys both ways round). For strategy s3 the Lean model (s3Snapshot / s3LoadDb) runs the same history and every output line and the bytes of every stored object are compared. distinct by (strategy, partitions, trace hash)"),
                samples=[jobs[0][0][:14]], traces_validated_against_impl=len([r for r in results if r.get("strategy") == "s3" and not r.get("dis")]),
                disagreements=len(disagreements), oracle_failures=len(failures), failure_classes={c: len([f for f in failures if f.cls == c]) for c in {f.cls for f in failures}},
                put_requests=sum(r.get("puts", 0) for r in results), notes=notes)
